@@ -220,6 +220,71 @@ func c18Hashes(r *Run) {
 	r.Evaluations++
 }
 
+// c18HashesConcurrent calls the three auth functions from several goroutines
+// at the same time (handshakes of different clients / of a client and the
+// auctioneer hash concurrently) and checks every result against a private
+// SHA-256; a sample is also compared with the model's SHA-256.
+func c18HashesConcurrent(r *Run) {
+	const G, M = 8, 400
+	type triple struct {
+		key    [33]byte
+		n1, n2 [32]byte
+		c, ch  [32]byte
+		ah     [32]byte
+	}
+	in := make([][]triple, G)
+	for g := range in {
+		in[g] = make([]triple, M)
+		for i := range in[g] {
+			copy(in[g][i].key[:], c18rand(r, 33))
+			copy(in[g][i].n1[:], c18rand(r, 32))
+			copy(in[g][i].n2[:], c18rand(r, 32))
+		}
+	}
+	start := make(chan struct{})
+	var wg sync.WaitGroup
+	for g := 0; g < G; g++ {
+		wg.Add(1)
+		go func(ts []triple) {
+			defer wg.Done()
+			<-start
+			for i := range ts {
+				t := &ts[i]
+				t.c = account.CommitAccount(t.key, t.n1)
+				t.ch = account.AuthChallenge(t.c, t.n2)
+				t.ah = account.AuthHash(t.c, t.ch)
+			}
+		}(in[g])
+	}
+	close(start)
+	wg.Wait()
+	cat := func(a, b []byte) [32]byte { return sha256.Sum256(append(append([]byte{}, a...), b...)) }
+	bad := 0
+	for g := range in {
+		for i := range in[g] {
+			t := &in[g][i]
+			if i < 4 {
+				r.Emit(fmt.Sprintf("C18 commit %x %x", t.key, t.n1), c18hex(t.c[:]))
+				r.Emit(fmt.Sprintf("C18 authhash %x %x", t.c, t.ch), c18hex(t.ah[:]))
+			}
+			r.Count("hashes/concurrent")
+			wc := cat(t.key[:], t.n1[:])
+			wch := cat(wc[:], t.n2[:])
+			wah := cat(wc[:], wch[:])
+			if (wc != t.c || wch != t.ch || wah != t.ah) && bad < 3 {
+				bad++
+				r.Violate("auth hash computed while other goroutines were hashing is not SHA256(a||b): "+
+					"the commitment would not open / the signed digest would not be H(commit||challenge)",
+					"C18/hash-concurrent", map[string]interface{}{"kind": "hash-concurrent",
+						"key": hex.EncodeToString(t.key[:]), "nonce": hex.EncodeToString(t.n1[:]),
+						"got_commit": hex.EncodeToString(t.c[:]), "want_commit": hex.EncodeToString(wc[:]),
+						"goroutines": G})
+			}
+		}
+	}
+	r.Evaluations++
+}
+
 // c18Handshake runs the real authenticate() against a scripted challenge and
 // compares both messages and the signed digest with the model.
 func c18Handshake(r *Run, acct *c18Acct, challengeField []byte, ver uint32) {
@@ -629,6 +694,8 @@ func runC18(r *Run) {
 		case "hs":
 			ch, _ := hex.DecodeString(c.Challenge)
 			c18Handshake(r, accts[0], ch, c.Ver)
+		case "hash-concurrent":
+			c18HashesConcurrent(r)
 		}
 	}
 	var fixedScn []c18Scn
@@ -665,9 +732,16 @@ func runC18(r *Run) {
 		return
 	}
 
+	c18HashesConcurrent(r)
+
 	var scns []c18Scn
 	for c := 0; c < r.N; c++ {
 		scns = append(scns, c18GenScenario(r))
+		if c%40 == 7 {
+			// several clients authenticating at the same time
+			scns = append(scns, c18Scn{Kind: "concurrent", Clients: 3 + r.Rng.Intn(4), NAccts: 2 + r.Rng.Intn(3),
+				MinMs: 1, MaxMs: 4, Rounds: 1 + r.Rng.Intn(3)})
+		}
 	}
 	defer c18Clients(r, scns)
 
